@@ -196,5 +196,6 @@ def tla(u):
            "MaxCF == %d" % u["max_cf"],
            "Batches == <<" + ", ".join(seq(b) for b in u["batches"]) + ">>",
            "InitChains == <<" + ", ".join(seq(c) for c in u["init_chains"]) + ">>",
+           "MainChain == " + seq(u.get("main_chain") or max(u["init_chains"], key=len)),
            "===="]
     return "\n".join(out) + "\n"
